@@ -1,5 +1,6 @@
 """C11 — symbolication returns the record that really covers the address."""
 import itertools
+import re
 
 from runner import PropBase
 from vlib import Rng
@@ -14,7 +15,7 @@ def fmt_case(mbase, msize, qs, items, extra=()):
     if extra:
         out += ["X", str(len(extra))]
         for (b, sz, hs) in extra:
-            out += [str(b), str(sz), "1" if hs else "0"]
+            out += [str(b), str(sz), str(int(hs))]
     out += ["Q", str(len(qs))] + [str(q) for q in qs] + ["R"]
     for it in items:
         k = it[0]
@@ -55,11 +56,13 @@ def parse_case(line):
     assert t[0] == "M"
     c.mbase, c.msize = int(t[1]), int(t[2])
     c.mods = [(c.mbase, c.msize, True)]
+    c.modflags = [1]          # 0 = the supplier has no symbols for the module, 1 = symbols, 2 = a symbol file that does not parse
     i = 3
     if t[i] == "X":
         k = int(t[i + 1])
         for j in range(k):
             c.mods.append((int(t[i + 2 + 3 * j]), int(t[i + 3 + 3 * j]), t[i + 4 + 3 * j] == "1"))
+            c.modflags.append(int(t[i + 4 + 3 * j]))
         i += 2 + 3 * k
     assert t[i] == "Q"
     n = int(t[i + 1])
@@ -595,7 +598,10 @@ class C11(PropBase):
                 b, sz = rng.below(1 << 20), rng.choice([0, 1, U32])
             else:
                 b, sz = (mb + (1 << 32) + rng.below(16)), rng.choice([64, 4096, U32])
-            extra.append((max(0, min(b, U64)), sz, rng.chance(3, 4)))
+            hs = rng.chance(3, 4)
+            # second pass: a module without usable symbols is either unknown to the supplier (0) or has a symbol file that
+            # does not parse (2) - decided by the values already drawn, so the random stream is the one of the earlier rounds
+            extra.append((max(0, min(b, U64)), sz, 1 if hs else (2 if (b + sz) % 2 else 0)))
         return extra
 
     def queries(self, rng, mbase, items, cap, extra=()):
@@ -947,9 +953,11 @@ class C11(PropBase):
         if ans.startswith("E"):
             return "harness could not parse its own symbol file: " + ans[:200]
         parts = ans.split(";")
-        if len(parts) != 2 + len(c.qs) or not parts[0].startswith("T") or not parts[-1].startswith("X"):
+        if len(parts) != 3 + len(c.qs) or not parts[0].startswith("T") or not parts[-1].startswith("X") or not parts[-2].startswith("C"):
             return "unparseable answer " + ans[:100]
         twin = parts.pop()
+        cache = parts.pop()
+        looked_up = set()
         mranges = [rng_func(b, sz) if sz <= U32 else None for (b, sz, _) in c.mods]
         for q, p in zip(c.qs, parts[1:]):
             d, rest = p.split("/S")
@@ -969,6 +977,7 @@ class C11(PropBase):
             else:
                 idx, so = s.split(":", 1)
                 idx = int(idx)
+                looked_up.add(idx)
                 if idx not in covering:
                     return "walk_stack attached module %d to instruction %d outside its range" % (idx, q)
                 fn2, src2, inl2 = parse_out(so)
@@ -994,6 +1003,31 @@ class C11(PropBase):
                 if not any(f.name == gname and in_r(rng_func(f.addr, f.size), q) for f in c.funcs) and \
                         not any(pb[1] == gname and pb[0] <= q for pb in c.pubs):
                     return "get_symbol_at_address(%d) = %s: no FUNC of that name contains the address and no PUBLIC of that name is at or below it" % (q, gname)
+        # --- the Symbolizer after the session (c11_symbolizer_session): one supplier call per module that was looked up
+        # (the modules walk_stack attached, plus the (debug_file, debug_id) pseudo-module of get_symbol_at_address), none pending,
+        # and a stats entry exactly for those: found-and-parsed / found-but-corrupt / not found
+        m = re.fullmatch(r"C(\d+),(\d+)\|([-01,]*)(\+\d+)?", cache)
+        if not m:
+            return "unparseable cache field " + cache[:100]
+        ents = m.group(3).split(",")
+        if len(ents) != len(c.mods) + 1:
+            return "unparseable cache field " + cache[:100]
+        want_keys = len(looked_up) + (1 if c.qs else 0)
+        if int(m.group(1)) != want_keys or int(m.group(2)) != want_keys:
+            return ("after the queries the Symbolizer reports %s symbol files requested / %s processed; %d distinct modules were looked up "
+                    "(each module's symbols are located exactly once)" % (m.group(1), m.group(2), want_keys))
+        if m.group(4):
+            return "the Symbolizer's stats have %s entries for modules that are not in the module list" % m.group(4)[1:]
+        for i, e in enumerate(ents):
+            if i == len(c.mods):
+                want = "10" if c.qs else "-"
+            elif i not in looked_up:
+                want = "-"
+            else:
+                want = {0: "00", 1: "10", 2: "11"}[c.modflags[i]]
+            if e != want:
+                return ("Symbolizer::stats for module %d is %s, expected %s (loaded,corrupt; - = no entry: the module was never looked up)"
+                        % (i, e, want))
         if twin != "Xok":
             # c11_inline_order_irrelevant: Function values and every symbolication are independent of the order of the INLINE ranges
             if twin.startswith("Xmove:"):
